@@ -1,12 +1,12 @@
 SPECIFICATION Spec
 CONSTANTS
-  Hs <- L_H
+  Hs <- L_H4
   Ms <- L_M2
-  Ks <- L_K2
-  Bs <- L_B3
-  Fs <- L_F2
-  Q0s <- L_Q3
-  V0s <- L_V3
+  Ks <- L_K1
+  Bs <- L_B2
+  Fs <- L_F1
+  Q0s <- L_Q2
+  V0s <- L_V2
   W0s <- L_W2
   T0s <- L_T0
   Us <- L_U2
@@ -14,12 +14,13 @@ CONSTANTS
   EDamps <- L_Bool
   Dampers <- L_Bool
   Springs <- L_Bool
-  Actuations <- L_True
-  GroupOns <- L_True
-  Acts <- L_Passive
-  MaxSteps = 2
+  Actuations <- L_Bool
+  GroupOns <- L_Bool
+  Acts <- L_ActsQ
+  MaxSteps = 1
+  MaxOff = 1
   Variant = "doc"
-  Bound = 4096
+  Bound = 1024
   BoundRK = 64
 VIEW ViewNoEv
 INVARIANT TypeOK
